@@ -313,6 +313,10 @@ MAINLOOP:
 			switch ev.Name {
 			case resolvedCfgPath, cleanedPath, cleanedPathDir,
 				cleanedPathDirPlusDir, filepath.Dir(resolvedCfgPath):
+			case filepath.Join(realDir(cleanedPathDir), filepath.Base(cleanedPath)):
+				// the config's own directory is reached through a
+				// symlinked directory and the event carries its
+				// other name (both names share one watch).
 			default:
 				continue MAINLOOP
 			}
@@ -397,15 +401,24 @@ func (ws *WatchingSource) updateDirWatches(cfgDir, oldResolvedCfgDir, resolvedCf
 			resolvedCfgDir, addErr)
 		return
 	}
-	if oldResolvedCfgDir == cfgDir {
-		// the config's own directory stays watched: that is where a
-		// later rename over the config path shows up.
+	if oldResolvedCfgDir == cfgDir || oldResolvedCfgDir == realDir(cfgDir) {
+		// the config's own directory (under either of its names, if it
+		// is reached through a symlinked directory) stays watched: that
+		// is where a later rename over the config path shows up.
 		return
 	}
 	if removeErr := ws.watcher.Remove(oldResolvedCfgDir); removeErr != nil {
 		ws.logger.Printf("failed to remove old watch for old symlink-resolved directory: %q: %s",
 			oldResolvedCfgDir, removeErr)
 	}
+}
+
+// realDir returns dir with its symlinks resolved (dir itself if that fails).
+func realDir(dir string) string {
+	if resolved, err := filepath.EvalSymlinks(dir); err == nil {
+		return resolved
+	}
+	return dir
 }
 
 // StdLogger is an interface satisified by several logging types, including the
